@@ -21,7 +21,7 @@ func init() {
 			"SetBytes(Arguments[k]) (non-negative by construction), its negation, or the current holding of the credited entry. R3: entry points whose supply column is 0 (and the toggles) contain no Value mutation and no store to ESDigitalToken.Value of a read entry. " +
 			"R4: the delete performed by ESDTWipe is cut by Frozen == true of the entry read from the same account and key. R5/R6/R7/R8 are shared obligations re-derived under this property: the nonce counter travels with the create role (C07-R2/R3), a credit adds to the holding (C01-R1), a balance key names the token and nonce of the input (C05-R3), and SaveKeyValue cannot write a balance entry (C03-R6). Does NOT decide: that the stored number equals old ± amount (arithmetic of math/big).",
 		Trusted: []string{"math/big Add/Sub/Neg/Cmp semantics", "T-REG supply column restating the property"},
-		Rules:   []func(*Ctx){c02r1, c02r2, c02r4, c02r5, c02r6, c02r7, c02r8},
+		Rules:   []func(*Ctx){c02r1, c02r2, c02r4, c02r5, c02r6, c02r7, c02r8, c02r9},
 	})
 }
 
@@ -440,4 +440,14 @@ func c02r7(c *Ctx) {
 // ELRONDesdt… value is a supply change by an amount nobody stated.
 func c02r8(c *Ctx) {
 	c.shareRule(c03r6, "C03-R6", "C02-R8", "SaveKeyValue cannot write a balance entry: its write is cut by the protected-prefix test on the very key written", nil)
+}
+
+// c02r9: "ESDTNFTCreate creates exactly the given quantity under a fresh nonce": the counter that makes the nonce fresh is
+// read with the codec it is written with (shared with C15-R2, restricted to the counter key): a reader that decodes the
+// stored bytes in another byte order or width continues below nonces already issued once the counter needs a second byte,
+// and the new entry lands on an existing holding.
+func c02r9(c *Ctx) {
+	c.shareRule(c15r2, "C15-R2", "C02-R9", "the nonce counter is read with the codec it is written with (a fresh nonce stays fresh beyond one byte)", func(o Oblig) bool {
+		return strings.Contains(o.Construct, "nonce key") || o.Kind == "anchor"
+	})
 }
